@@ -7,7 +7,7 @@ using cm::Value;
 
 static const UChar N_X[] = u"_x", N_Y[] = u"_y";
 static const char *STORE[] = {"set_value-new", "set_value-looped", "loop_add_item", "add_packet", "iterator-update"};
-static const char *READ[] = {"get_value-new", "get_value-into-existing", "packet-iteration", "walk"};
+static const char *READ[] = {"get_value-new", "get_value-into-existing", "packet-iteration", "walk", "packet-iteration-into-unrelated-packet"};
 
 struct WalkCtx { std::vector<Value> seen; int rc = CIF_OK; };
 static int w_item(UChar *name, cif_value_tp *value, void *ctx) {
@@ -104,7 +104,13 @@ static std::string run_case(const CaseFile &c) {
             CK(cif_value_copy_char(got, u"wrecked-copy"));
             cif_value_free(got); got = nullptr;
             break; }
-        case 2: {
+        case 2: case 4: {
+            if (readr == 4) {   // the caller's packet holds an unrelated item (with a value of its own) and none of the loop's names
+                UChar *un[] = {(UChar *) u"_unrelated", nullptr}; cif_value_tp *uv = nullptr;
+                CK(cif_packet_create(&pkt, un)); CK(cif_value_create(CIF_UNK_KIND, &uv));
+                int r1 = cif_value_copy_char(uv, u"unrelated text"), r2 = r1 == CIF_OK ? cif_packet_set_item(pkt, u"_unrelated", uv) : r1;
+                cif_value_free(uv); CK(r2);
+            }
             CK(cif_container_get_item_loop(blk, N_X, &loop));
             CK(cif_loop_get_packets(loop, &it));
             int rc;
@@ -166,7 +172,7 @@ int main(int argc, char **argv) {
                 for (auto &ch : v.text) if (ch == 0xFFFE || ch == 0xFFFF) ch = 0xFFFC;
             }
             if (has_lead_bom(v)) { count_excluded("F-BOM-SCALAR"); v.text[0] = 0x2060; }
-            CaseFile c; c.set("value", cm::ser(v)); c.seti("store", *g::range(0, 4)); c.seti("read", *g::range(0, 3));
+            CaseFile c; c.set("value", cm::ser(v)); c.seti("store", *g::range(0, 4)); c.seti("read", *g::range(0, 4));
             VH_BEGIN(c);
             if (c.get("value").size() < 300) sample(c.get("value") + " store=" + STORE[c.geti("store")] + " read=" + READ[c.geti("read")]);
             std::string m = run_case(c);
